@@ -158,6 +158,7 @@ DEEP = 'depthvar+sin(2k)+' + '(' * 300 + 'x' + ')' * 300
 ALPHABET = [
     'x+y*2', 'x + y*2', 'x+\ty*2', 'sin(x)+f(y,2k)', 'f+f(x,f)', '(x+y', 'x+*y',
     'zork(x)+ * 2k', 'undefinedvar+x', DEEP, '[x,y]*[1,2]+3%', '  ',
+    'x1+y', 'x\t1+y',      # a tab inside a name is significant: the second string is outside the grammar
 ]
 
 
@@ -247,14 +248,32 @@ def run_random_histories(ctx):
         gen = G.Gen(rng, ['x', 'y', 'f', 'k', 'depthvar'], func_names=['sin', 'cos', 'f'], metric=False, arrays=True)
         toks = G.toks(gen.scalar(rng.randint(1, 3)))
         pool.append(G.join(toks, rng, rng.choice(['plain', 'spaces', 'tabs'])))
+        if len(toks) > 2 and rng.random() < 0.5:
+            # whitespace variants that are NOT equivalent: a tab inside a name / number
+            plain = ''.join(toks)
+            k = rng.randrange(1, len(plain))
+            if plain[k - 1].isalnum() and plain[k].isalnum():
+                pool.append(plain)
+                pool.append(plain[:k] + '\t' + plain[k:])
         made = c03.make_invalid(rng, toks)
         if made:
             pool.append(made[1])
     baseline = {}
+    from mitxgraders import SumGrader, FormulaGrader
     for i in range(ctx.n(320, 6000)):
         length = rng.randint(5, 64)
         seq = [(rng.choice(pool), rng.choice(['parse', 'evalA', 'evalB'])) for _ in range(length)]
+        # other consumers of the shared parser run in between: a SumGrader whose limits call functions and a
+        # FormulaGrader, both fed strings from the same pool (they must not disturb what parse() reports)
+        sg = SumGrader(answers={'lower': '1', 'upper': '4', 'summand': 'x', 'summation_variable': 'x'})
+        fg = FormulaGrader(answers='x+y', variables=['x', 'y', 'f', 'k', 'depthvar'])
         for pos, ev in enumerate(seq):
+            if pos % 5 == 2:
+                lib.call(ctx, sg, None, ['abs(0-1)', 'floor(4.5)', ev[0], 'nn'])
+                ctx.count('interleaved_grader_calls')
+            elif pos % 5 == 4:
+                lib.call(ctx, fg, None, ev[0])
+                ctx.count('interleaved_grader_calls')
             if ev not in baseline:
                 baseline[ev] = with_fresh_parser(lambda: apply_event(ev, A, B))
             got = apply_event(ev, A, B)
